@@ -176,6 +176,7 @@ impl VM {
                 Op::SelectJump(jp) => self.op_select_jump(jp)?,
                 Op::And(jp) => self.op_and(jp, pos)?,
                 Op::Or(jp) => self.op_or(jp, pos)?,
+                Op::CheckBool => self.op_check_bool()?,
                 Op::Module(mptr) => self.op_module(idx, mptr, pos)?,
                 Op::Func(jptr) => self.op_func(idx, jptr, pos)?,
                 Op::FCall => self.op_fcall(pos, env)?,
@@ -308,6 +309,21 @@ impl VM {
             ));
         }
         Ok(())
+    }
+
+    fn op_check_bool(&mut self) -> Result<(), Error> {
+        match self.stack.last() {
+            Some((val, val_pos)) => {
+                if let &P(Bool(_)) = val.as_ref() {
+                    return Ok(());
+                }
+                Err(Error::new(
+                    format!("Not a boolean operand {:?} in boolean expression", val).into(),
+                    val_pos.clone(),
+                ))
+            }
+            None => unreachable!(),
+        }
     }
 
     fn op_jump_if_true(&mut self, jp: i32) -> Result<(), Error> {
